@@ -108,14 +108,15 @@ func addrOf(p mangos.Pipe, opt string) (net.Addr, error) {
 
 func c13Addr(w *W) {
 	kind := []string{"pair", "bus", "req", "pub", "star", "xrep"}[w.Choose(simrt.SShape, 6)]
-	tran := []string{"sim", "simipc", "inproc"}[w.Choose(simrt.SShape, 3)]
+	tran := []string{"sim", "simipc", "inproc", "tcp", "ipc", "tls+tcp"}[w.Choose(simrt.SShape, 6)]
 	w.SetShape("kind", kind)
 	w.SetShape("tran", tran)
 	w.UseNet(NetCfg{Segment: w.Choose(simrt.SShape, 2) == 0})
 	a, b := w.Sock(kind), w.Sock(peerKind[kind])
 	defer a.Close()
 	defer b.Close()
-	lp, dp, l, d, ok := c13Collect(w, a, b, w.Addr(tran), nil, nil)
+	laddr := w.Addr(tran)
+	lp, dp, l, d, ok := c13Collect(w, a, b, laddr, w.EpOpts(laddr, true, nil), w.EpOpts(laddr, false, nil))
 	if !ok || !c13CheckEndpoints(w, tran, lp, dp, l, d) {
 		return
 	}
@@ -128,11 +129,36 @@ func c13Addr(w *W) {
 			w.Failf("C13/address-options-missing", "%s: %v %v %v %v", tran, e1, e2, e3, e4)
 			return
 		}
-		want := strings.TrimPrefix(l.Address(), tran+"://")
-		if ll.String() != want || dr.String() != want || lr.String() != dl.String() || !strings.HasPrefix(dl.String(), "client:") {
+		want := NetKey(l.Address())
+		clientOK := true
+		switch tran {
+		case "sim", "simipc":
+			clientOK = strings.HasPrefix(dl.String(), "client:")
+		case "tcp", "tls+tcp":
+			clientOK = strings.HasPrefix(dl.String(), "127.0.0.1:") && dl.String() != want
+		}
+		if ll.String() != want || dr.String() != want || lr.String() != dl.String() || !clientOK {
 			w.Failf("C13/wrong-connection-addresses", "%s: listener side local=%v remote=%v, dialer side local=%v remote=%v; the connection is %v <-> %v", tran, ll, lr, dl, dr, dl, want)
 			return
 		}
+	}
+	if tran == "tls+tcp" {
+		// (the listener side is the known finding recorded for engine R: the
+		// state is captured before the handshake has run)
+		for _, x := range []struct {
+			side string
+			p    mangos.Pipe
+		}{{"dialer", dp}, {"listener", lp}} {
+			v, err := x.p.GetOption(mangos.OptionTLSConnState)
+			cs, ok := v.(tls.ConnectionState)
+			if err != nil || !ok || !cs.HandshakeComplete || cs.Version == 0 {
+				w.Failf("C13/wrong-tls-state:"+tran+":"+x.side, "%s: the %s-side pipe's TLS state (%T, err %v, handshake complete %v, version %#x) does not describe the established session", tran, x.side, v, err, cs.HandshakeComplete, cs.Version)
+			}
+		}
+		w.Probe("tls-state")
+	} else if v, err := lp.GetOption(mangos.OptionTLSConnState); err == nil {
+		w.Failf("C13/wrong-tls-state:"+tran+":plain", "%s: a non-TLS pipe reports TLS state %v", tran, v)
+		return
 	}
 	// an unknown read-only option is refused, not invented
 	if v, err := lp.GetOption("NO-SUCH-PROPERTY"); err == nil {
